@@ -1,0 +1,6 @@
+//go:build !verif
+
+package statecache
+
+// verifYield is a no-op (inlined away) unless built with the `verif` tag.
+func verifYield(string) {}
